@@ -15,6 +15,7 @@ import (
 	"sort"
 	"strings"
 	"testing"
+	"time"
 
 	sdkmath "cosmossdk.io/math"
 	abci "github.com/cometbft/cometbft/abci/types"
@@ -1121,6 +1122,9 @@ func (x *lRun) closePositions(op lOp) (res TxResult) {
 		res = w.Deliver(msg)
 		after, err2 := w.App.LeveragelpKeeper.GetPosition(w.QCtx(), owner, p.Id)
 		changed := err2 != nil || !after.LeveragedLpAmount.Equal(before.lp) || !after.Collateral.Amount.Equal(before.collateral)
+		if os.Getenv("VERIF_REPLAY") != "" {
+			fmt.Printf("  lev close-positions on %s/%d: liabilities %s health %v (err %v) sf %s -> changed=%v gone=%v res=%v\n", p.Address, p.Id, p.Liabilities, before.health, before.healthErr, sf, changed, err2 != nil, res.Err)
+		}
 		if changed && !before.healthErr && lpErr == nil {
 			liqOK := before.health.LTE(sf)
 			slOK := !before.stopLoss.IsNil() && lpPrice.LTE(before.stopLoss)
@@ -1473,7 +1477,46 @@ func (x *lRun) scanDonations(ops []BankOp) {
 
 func (x *lRun) block(dt int64) bool {
 	x.m.RefreshPrices()
+	// C12 (and the sweep of the leveragelp begin blocker): positions holding shares under a running lock and no liquidation /
+	// stop-loss condition on the state the next block starts from must still hold them after the block
+	type lockedPos struct {
+		p     levtypes.Position
+		noLiq bool
+	}
+	var watch []lockedPos
+	if x.prop == "C12" || x.prop == "C" {
+		qc := x.w.QCtx().WithBlockTime(x.w.Time.Add(time.Duration(dt) * time.Second))
+		sf := x.w.App.LeveragelpKeeper.GetParams(qc).SafetyFactor
+		for _, p := range x.w.App.LeveragelpKeeper.GetAllPositions(qc) {
+			if len(x.levLocks[fmt.Sprintf("%s/%d", p.Address, p.Id)]) == 0 {
+				continue
+			}
+			noLiq := false
+			func() {
+				defer func() { _ = recover() }()
+				h, ok := lIndependentLevHealth(x.w, qc, p)
+				ammPool, found := x.w.App.AmmKeeper.GetPool(qc, p.AmmPoolId)
+				if !ok || !found {
+					return
+				}
+				lpPrice, err := ammPool.LpTokenPrice(qc, x.w.App.OracleKeeper, x.w.App.AccountedPoolKeeper)
+				if err != nil {
+					return
+				}
+				// a comfortable margin: the sweep sees the state AFTER interest accrual of the new block
+				noLiq = h.GT(sf.Mul(dec("1.05"))) && (p.StopLossPrice.IsNil() || p.StopLossPrice.IsZero() || lpPrice.GT(p.StopLossPrice.Mul(dec("1.05"))))
+			}()
+			watch = append(watch, lockedPos{p, noLiq})
+		}
+	}
 	err := x.w.EndBlock(dt)
+	if err == nil {
+		for _, lp := range watch {
+			if lp.noLiq {
+				x.c12LevLocked(lp.p.Address, lp.p.Id, "a block in which the position met no liquidation or stop-loss condition")
+			}
+		}
+	}
 	if err == nil {
 		x.scanDonations(BankOps(x.w.LastBlockEvents))
 	}
